@@ -60,6 +60,11 @@ fn success_values(dom: Dom, thorough: bool) -> Vec<i64> {
     };
     // the first value outside the error band: an error under an off-by-one threshold
     v.push(-4096);
+    // plain 64-bit successes whose low 32 (16) bits look like a small negative number: an
+    // error test done after narrowing the register would take them for -errno
+    if matches!(dom, Dom::Count | Dom::Offset) {
+        v.extend([0xFFFF_FFFFi64, 0xFFFF_F001, 0x1_FFFF_FFFE, 0x7_FFFF_FFF3, 0xFFFF, 0x1_FFFE, 0xFFFF_FFFF_0000_0000u64 as i64 >> 16]);
+    }
     if thorough && !matches!(dom, Dom::Zero) {
         let top = match dom {
             Dom::FdPid => 31,
